@@ -9,10 +9,15 @@
    Covered:  c08_rsn_decode_exact (nonvacuous + instances: decoded record at offset 17 of the 82 bytes, also with
                                    an oracle that returns 255 outside the buffer; truncated element at offset 67
                                    -> Err -22 although the bytes that follow it are readable; transition element;
-                                   seven pairwise suites -> Err -22),
-             c08_wpa_decode_exact (nonvacuous + instances: decoded record at offset 39; cut element -> Err -22),
+                                   seven pairwise suites -> first six kept; MINIMAL element of 6 octets (version +
+                                   group suite) and element ending after the pairwise list -> decoded, rest empty;
+                                   3- and 0-octet elements -> Err -22 under an oracle that FAULTS EVERYWHERE: no read),
+             c08_wpa_decode_exact (nonvacuous + instances: decoded record at offset 39; cut element -> Err -22;
+                                   minimal 10-octet element; 3-octet element, shorter than the vendor header, -> Err -22
+                                   under the everywhere-faulting oracle),
              c08_bss_exact        (nonvacuous + instances: full bss record of the mixed beacon with the flag word
-                                   decomposed; WEP beacon; WPS beacon; undecodable RSN -> the whole beacon refused),
+                                   decomposed; WEP beacon; WPS beacon; undecodable RSN -> the whole beacon refused;
+                                   beacon with the minimal 6-octet RSN element -> accepted, group cipher flag, WEP cleared),
              c08_flags_exact      (no hypotheses: instance on the two decoded records and on a record listing a
                                    suite under a foreign OUI),
              c08_tables           (no hypotheses: instance at selectors 4, 8 and the undefined 99).
@@ -69,12 +74,12 @@ Proof. vm_compute. repeat split; reflexivity. Qed.
 (* ---------- c08_rsn_decode_exact ---------- *)
 (* base = first byte of the element BODY (after number and length), len = the element's length octet *)
 Example c08_rsn_decode_exact_nonvacuous :
-  wfbytes tagbuf /\ agrees (rd_strict tagbuf) tagbuf /\ 0 <= 17 /\ 6 <= 20 /\ 17 + 20 <= zlen tagbuf.
+  wfbytes tagbuf /\ agrees (rd_strict tagbuf) tagbuf /\ 0 <= 17 /\ 0 <= 20 /\ 17 + 20 <= zlen tagbuf.
 Proof.
   split; [exact wf_tagbuf|]. split; [apply agrees_strict|]. vm_compute. repeat split; discriminate.
 Qed.
 Example c08_rsn_decode_exact_nonvacuous_short :
-  wfbytes tagbuf /\ agrees (rd_env tagbuf (fun _ => 255)) tagbuf /\ 0 <= 67 /\ 6 <= 12 /\ 67 + 12 <= zlen tagbuf.
+  wfbytes tagbuf /\ agrees (rd_env tagbuf (fun _ => 255)) tagbuf /\ 0 <= 67 /\ 0 <= 12 /\ 67 + 12 <= zlen tagbuf.
 Proof.
   split; [exact wf_tagbuf|]. split; [apply agrees_env|]. vm_compute. repeat split; discriminate.
 Qed.
@@ -122,11 +127,63 @@ Proof.
   vm_compute. eexists. split; [reflexivity|]. split; reflexivity.
 Qed.
 
+(* the MINIMAL element: version and group cipher suite, nothing else (every later field is optional, finding F46:
+   such an element used to be refused).  Also an element that ends behind its pairwise list. *)
+Definition rsn_min : list byte := [1;0; 0;15;172;4].
+Definition rsn_pw : list byte := [1;0; 0;15;172;4; 1;0; 0;15;172;4].
+Definition minbuf : list byte := enc [(48, rsn_min); (48, rsn_pw); (42, [0])].
+Lemma wf_minbuf : wfbytes minbuf. Proof. wf. Qed.
+Example c08_rsn_decode_exact_instance_minimal :
+  slice 2 6 minbuf = rsn_min /\ slice 10 12 minbuf = rsn_pw /\
+  get_rsn_info (rd_strict minbuf) 2 8 =
+    Done (Ok {| r_version := 1; r_group := ([0; 15; 172], 4); r_pairwise := []; r_akms := []; r_caps := 0 |}) /\
+  get_rsn_info (rd_strict minbuf) 10 22 =
+    Done (Ok {| r_version := 1; r_group := ([0; 15; 172], 4); r_pairwise := [([0; 15; 172], 4)]; r_akms := [];
+                r_caps := 0 |}).
+Proof.
+  split; [vm_compute; reflexivity|]. split; [vm_compute; reflexivity|].
+  change 8 with (2 + 6). change 22 with (10 + 12).
+  rewrite (c08_rsn_decode_exact minbuf _ 2 6 wf_minbuf (agrees_strict _) ltac:(lia) ltac:(lia)
+             ltac:(vm_compute; discriminate)).
+  rewrite (c08_rsn_decode_exact minbuf _ 10 12 wf_minbuf (agrees_strict _) ltac:(lia) ltac:(lia)
+             ltac:(vm_compute; discriminate)).
+  vm_compute. split; reflexivity.
+Qed.
+(* an element too short for version + group suite is refused BEFORE any read (finding F45: six octets used to be read
+   unconditionally).  rd_nothing faults on every address; it agrees with the empty buffer, so the theorem applies with
+   len = 0, and for the 3-octet case the model is run directly: the result is Done, no read was attempted *)
+Definition rd_nothing : Z -> res byte := rd_strict [].
+Example c08_rsn_decode_exact_instance_tiny :
+  (forall i, rd_nothing i = Fault OobRead i) /\ rd_nothing 2 = Fault OobRead 2 /\
+  get_rsn_info rd_nothing 0 3 = Done (Err (-22)) /\ get_rsn_info rd_nothing 0 5 = Done (Err (-22)) /\
+  get_rsn_info rd_nothing 0 0 = Done (Err (-22)) /\
+  (* with one octet more the first read happens - and faults under this oracle *)
+  get_rsn_info rd_nothing 0 6 = Fault OobRead 0.
+Proof.
+  split; [intros i; unfold rd_nothing, rd_strict; change (zlen []) with 0; destruct (_ && _) eqn:E; [lia|reflexivity]|].
+  split; [vm_compute; reflexivity|].
+  split; [vm_compute; reflexivity|]. split; [vm_compute; reflexivity|].
+  split; [|vm_compute; reflexivity].
+  change (get_rsn_info rd_nothing 0 0) with (get_rsn_info rd_nothing 0 (0 + 0)).
+  rewrite (c08_rsn_decode_exact [] rd_nothing 0 0 ltac:(constructor) (agrees_strict _) ltac:(lia) ltac:(lia)
+             ltac:(vm_compute; discriminate)).
+  vm_compute. reflexivity.
+Qed.
+(* the 3-octet element inside a real buffer, through the theorem *)
+Example c08_rsn_decode_exact_instance_three :
+  get_rsn_info (rd_env (enc [(48, [1; 0; 0]); (42, [0])]) (fun _ => 255)) 2 5 = Done (Err (-22)).
+Proof.
+  change 5 with (2 + 3).
+  rewrite (c08_rsn_decode_exact (enc [(48, [1; 0; 0]); (42, [0])]) _ 2 3 ltac:(wf) (agrees_env _ _) ltac:(lia) ltac:(lia)
+             ltac:(vm_compute; discriminate)).
+  vm_compute. reflexivity.
+Qed.
+
 (* ---------- c08_wpa_decode_exact ---------- *)
 (* base = first byte of the vendor element body (the OUI); the routine is handed base + 4 *)
 Example c08_wpa_decode_exact_nonvacuous :
-  (wfbytes tagbuf /\ agrees (rd_strict tagbuf) tagbuf /\ 0 <= 39 /\ 10 <= 26 /\ 39 + 26 <= zlen tagbuf) /\
-  (wfbytes wpacutbuf /\ agrees (rd_strict wpacutbuf) wpacutbuf /\ 0 <= 2 /\ 10 <= 16 /\ 2 + 16 <= zlen wpacutbuf).
+  (wfbytes tagbuf /\ agrees (rd_strict tagbuf) tagbuf /\ 0 <= 39 /\ 0 <= 26 /\ 39 + 26 <= zlen tagbuf) /\
+  (wfbytes wpacutbuf /\ agrees (rd_strict wpacutbuf) wpacutbuf /\ 0 <= 2 /\ 0 <= 16 /\ 2 + 16 <= zlen wpacutbuf).
 Proof.
   split.
   - split; [exact wf_tagbuf|]. split; [apply agrees_strict|]. vm_compute. repeat split; discriminate.
@@ -143,6 +200,30 @@ Proof.
   destruct c08_wpa_decode_exact_nonvacuous as [_ [A [B [C [D E]]]]].
   change 6 with (2 + 4). change 18 with (2 + 16).
   rewrite (c08_wpa_decode_exact wpacutbuf _ 2 16 A B C D E). vm_compute. reflexivity.
+Qed.
+
+(* minimal WPA element (vendor header, version, multicast suite); a vendor element of three octets - shorter than the
+   vendor header, so that base + 4 lies behind its end - is refused without a read *)
+Definition wpa_min : list byte := [0;80;242;1; 1;0; 0;80;242;2].
+Definition wpaminbuf : list byte := enc [(221, wpa_min); (221, [0; 80; 242]); (42, [0])].
+Lemma wf_wpaminbuf : wfbytes wpaminbuf. Proof. wf. Qed.
+Example c08_wpa_decode_exact_instance_minimal :
+  slice 2 10 wpaminbuf = wpa_min /\ slice 14 3 wpaminbuf = [0; 80; 242] /\
+  get_wpa_info (rd_strict wpaminbuf) 6 12 =
+    Done (Ok {| wi_version := 1; wi_multicast := ([0; 80; 242], 2); wi_unicast := []; wi_akms := [] |}) /\
+  get_wpa_info (rd_strict wpaminbuf) 18 17 = Done (Err (-22)) /\
+  get_wpa_info rd_nothing 18 17 = Done (Err (-22)).
+Proof.
+  split; [vm_compute; reflexivity|]. split; [vm_compute; reflexivity|].
+  split; [|split; [|vm_compute; reflexivity]].
+  - change 6 with (2 + 4). change 12 with (2 + 10).
+    rewrite (c08_wpa_decode_exact wpaminbuf _ 2 10 wf_wpaminbuf (agrees_strict _) ltac:(lia) ltac:(lia)
+               ltac:(vm_compute; discriminate)).
+    vm_compute. reflexivity.
+  - change 18 with (14 + 4). change 17 with (14 + 3).
+    rewrite (c08_wpa_decode_exact wpaminbuf _ 14 3 wf_wpaminbuf (agrees_strict _) ltac:(lia) ltac:(lia)
+               ltac:(vm_compute; discriminate)).
+    vm_compute. reflexivity.
 Qed.
 
 (* ---------- c08_flags_exact / c08_tables ---------- *)
@@ -193,6 +274,8 @@ Definition badrsn_bytes := beacon_with 1041 [(48, rsn_short); (42, [0])].
 Definition wpa_ccmp_body : list byte := [0;80;242;1; 1;0; 0;80;242;4; 1;0; 0;80;242;4; 1;0; 0;80;242;2].
 Definition wpaccmp_bytes := beacon_with 1041 [(221, wpa_ccmp_body)].
 
+Definition minrsn_bytes := beacon_with 1041 [(48, rsn_min); (42, [0])].
+
 Definition frame0 : frame :=
   {| f_rtap := None; f_flags := 0; f_fc := []; f_len := 0; f_header := []; f_header_len := 0; f_body := [] |}.
 Definition classified (buf : list byte) : frame :=
@@ -202,6 +285,7 @@ Definition f_wep : frame := Eval vm_compute in classified wep_bytes.
 Definition f_wps : frame := Eval vm_compute in classified wps_bytes.
 Definition f_badrsn : frame := Eval vm_compute in classified badrsn_bytes.
 Definition f_wpaccmp : frame := Eval vm_compute in classified wpaccmp_bytes.
+Definition f_minrsn : frame := Eval vm_compute in classified minrsn_bytes.
 Ltac by_classification buf :=
   apply (c12_classified_ok buf None); [wf | vm_compute; reflexivity | intros ? ?; discriminate].
 Lemma ok_mixed : frame_ok f_mixed. Proof. by_classification mixed_bytes. Qed.
@@ -209,6 +293,7 @@ Lemma ok_wep : frame_ok f_wep. Proof. by_classification wep_bytes. Qed.
 Lemma ok_wps : frame_ok f_wps. Proof. by_classification wps_bytes. Qed.
 Lemma ok_badrsn : frame_ok f_badrsn. Proof. by_classification badrsn_bytes. Qed.
 Lemma ok_wpaccmp : frame_ok f_wpaccmp. Proof. by_classification wpaccmp_bytes. Qed.
+Lemma ok_minrsn : frame_ok f_minrsn. Proof. by_classification minrsn_bytes. Qed.
 
 Example c08_bss_exact_nonvacuous :
   (spec_classify mixed_bytes None = Ok f_mixed /\ frame_ok f_mixed) /\ frame_ok f_wep /\ frame_ok f_wps /\
@@ -257,5 +342,14 @@ Example c08_bss_exact_instance_wpa_ccmp :
                          wi_akms := [([0; 80; 242], 2)] |}.
 Proof.
   rewrite (proj1 (c08_bss_exact f_wpaccmp ok_wpaccmp)). eexists. split; [vm_compute; reflexivity|].
+  vm_compute. repeat split; reflexivity.
+Qed.
+(* a beacon whose RSN element holds version and group suite only: accepted (it used to be refused, finding F46); the
+   summary holds the group cipher's flag, the WEP flag of the privacy bit is cleared, no WPA2 flag (that comes with an AKM) *)
+Example c08_bss_exact_instance_minimal_rsn :
+  exists b, parse_beacon f_minrsn = Done (Ok b) /\ b_enc b = bit 8 /\ b_channel b = 6 /\ b_wpa b = wpa0 /\
+            b_rsn b = {| r_version := 1; r_group := ([0; 15; 172], 4); r_pairwise := []; r_akms := []; r_caps := 0 |}.
+Proof.
+  rewrite (proj1 (c08_bss_exact f_minrsn ok_minrsn)). eexists. split; [vm_compute; reflexivity|].
   vm_compute. repeat split; reflexivity.
 Qed.
